@@ -37,7 +37,7 @@ func init() {
 			"random sources return non-negative values",
 		},
 		Gen: func(tier string, seed uint64) []core.Case {
-			n, per, maxN := 48, 60, 36000
+			n, per, maxN := 144, 80, 36000
 			if tier == "thorough" {
 				n, per, maxN = 320, 100, 1_728_000
 			}
